@@ -1,5 +1,6 @@
 import KafkaModel.Replay
 import KafkaModel.Driver
+import KafkaModel.Spec.MsgSet
 /-!
   Violation search: the *specification side* of each property's theorems, evaluated on what the
   real implementation was observed to do (requests it sent, results it returned), against the
@@ -1135,6 +1136,64 @@ def judgeC06 (ops : List OpRec) : List String :=
     | _ => s) ({} : J06)
   s.out
 
+/-! ### C02 -/
+
+def fmtExposed (ms : List (Int × Bytes × Bytes)) : String :=
+  "[" ++ joinWith "," (ms.map fun (x : Int × Bytes × Bytes) => s!"{x.1}:{toHexTok x.2.1}:{toHexTok x.2.2}") ++ "]"
+
+def parseExposed (s : String) : List String :=
+  -- "hw[a,b,c]" ↦ ["a","b","c"]
+  match s.splitOn "[" with
+  | [_, rest] => let inner := (rest.splitOn "]").head!; if inner == "" then [] else inner.splitOn ","
+  | _ => []
+
+/-- the property's own demand on one partition: what is exposed is a prefix of the complete messages at or above the
+    requested offset, non-empty when such a message exists, and all of them when no entry is compressed -/
+def judgeC02Part (s : JSt) (op : OpRec) (tp : String) (got : List String) (pr : FetchPartResp) (req : Int) : JSt :=
+  let want := (exposed leanDec 4 pr.set req).map fun (x : Int × Bytes × Bytes) => s!"{x.1}:{toHexTok x.2.1}:{toHexTok x.2.2}"
+  let allPlain := (completeEntries (pr.set.length + 1) pr.set).all fun (m : Msg) => (toU 1 m.attr) % 8 == 0
+  if got != want.take got.length then
+    viol s "C02-not-a-prefix" op s!"{tp}: exposed {got}, which is not a prefix of the complete messages at or above offset {req}: {want}"
+  else if got.isEmpty && !want.isEmpty then
+    viol s "C02-empty-although-available" op s!"{tp}: nothing exposed although complete messages at or above offset {req} exist: {want}"
+  else if allPlain && got != want then
+    viol s "C02-uncompressed-incomplete" op s!"{tp}: exposed {got} of an uncompressed set whose complete messages are {want}"
+  else s
+
+def judgeC02 (ops : List OpRec) : List String :=
+  let s := ops.foldl (fun (s : JSt) op =>
+    let s := { s with cluster := applySetup s.cluster op.setup }
+    let (c', bodies) := truthBodies s.cluster op
+    let ioFault := op.evs.any (fun e => match e with | .io _ _ => true | .connect _ ok => !ok | _ => false)
+    let s := match op.toks with
+    | _ :: "fetch_messages" :: _ =>
+      if ioFault then s else
+      if op.result.startsWith "err" || op.result == "panic" then
+        (if bodies.isEmpty then s else viol s "C02-fetch-failed" op s!"returned `{op.result}` for well-formed responses")
+      else
+        -- result tokens: " t/p=hw[...]" or " t/p=E<code>"
+        let toks := (op.result.splitOn " ").drop 1
+        bodies.foldl (fun (s : JSt) (x : Bytes × Request × RespBody) =>
+          let reqOff (t : Bytes) (p : Int) : Int := match x.2.1.body with
+            | ReqBody.fetch _ _ _ ts => ((ts.find? (fun (y : Bytes × List FetchPart) => y.1 == t)).bind fun (y : Bytes × List FetchPart) =>
+                (y.2.find? (fun (fp : FetchPart) => fp.partition == p)).map (fun (fp : FetchPart) => fp.offset)).getD 0
+            | _ => 0
+          match x.2.2 with
+          | RespBody.fetch ts => ts.foldl (fun (s : JSt) (tp : Bytes × List FetchPartResp) => tp.2.foldl (fun (s : JSt) (pr : FetchPartResp) =>
+              let key := s!"{toHexTok tp.1}/{pr.partition}="
+              match toks.find? (fun (t : String) => t.startsWith key) with
+              | none => viol s "C02-partition-missing" op s!"{key} is not in the result"
+              | some tok =>
+                let val := (tok.drop key.length).toString
+                if pr.err ≠ 0 then (if val == s!"E{kindOf pr.err}" then s else viol s "C02-error-partition" op tok)
+                else
+                  let s := if val.startsWith (toString pr.hw ++ "[") then s else viol s "C02-high-watermark" op s!"{tok}: high watermark sent is {pr.hw}"
+                  judgeC02Part s op key (parseExposed val) pr (reqOff tp.1 pr.partition)) s) s
+          | _ => s) s
+    | _ => s
+    { s with cluster := c' }) ({} : JSt)
+  s.out
+
 def judge (prop : String) (lines : List String) : List String :=
   let ops := parseOps lines
   match prop with
@@ -1150,6 +1209,7 @@ def judge (prop : String) (lines : List String) : List String :=
   | "C19" => judgeC19 ops
   | "C05" => judgeC05 ops
   | "C06" => judgeC06 ops
+  | "C02" => judgeC02 ops
   | _ => []
 
 end Kafka.Judge
